@@ -169,6 +169,19 @@ def base_case(draw, name, max_len=8, max_src=4, steps="full", min_len=0, min_src
                     if seen:
                         s_["items"][pos] = uids.fix(("K", 1))
                     seen = True
+    if name in ("nlargest", "nsmallest"):
+        # complex numbers are unorderable but may be EQUAL to another item (0 == 0j, 1+1j == 1+1j): whether equal
+        # unorderable items are ever asked for "<" depends on the algorithm (heapq itself differs between its
+        # n >= len and n < len paths), so at most one complex, never equal to a real number
+        seen = False
+        for s_ in srcs:
+            for pos, it in enumerate(s_["items"]):
+                if it[0] == "c":
+                    if seen:
+                        s_["items"][pos] = ["i", it[1]]
+                    elif it[2] == 0:
+                        it[2] = 1
+                    seen = True
     fns = {}
     for role, fnkind in tool.roles:
         fns[role] = draw(fn_spec(_role_kind(role, fnkind)))
